@@ -414,6 +414,9 @@ class Facts:
             f = c.by_path.get(path)
             if f:
                 return f
+        cands = self.find(path, crate)
+        if len(cands) == 1:
+            return cands[0]
         return None
 
     def find(self, pat, crate=None):
